@@ -483,7 +483,7 @@ def copied_instance_probes(rec):
 
     X = h.ExternalModule(name=f"CpX{next(build._counter)}", port_list=[h.Port(name="p"), h.Port(name="n"), h.Port(name="b", width=2)], paramtype=h.HasNoParams)
     for target in ("single", "array", "pair"):
-        for story in ("complete-copies", "reconnect-copy", "reconnect-original", "disconnect-on-copy", "copy-of-copy"):
+        for story in ("complete-copies", "reconnect-copy", "reconnect-original", "disconnect-on-copy", "copy-of-copy", "refs-from-copies", "refs-from-copy-and-original"):
             rec.count("probe.copied-instances")
             case = {"kind": "copied-instance", "target": target, "story": story}
             rec.case(key=jhash(case), nontrivial=True, sample=case)
@@ -521,6 +521,30 @@ def copied_instance_probes(rec):
                     i1.disconnect("p")
                     i1.p = m.y
                     want = {"i1": {"p": "y", "n": "vss", "b": "bb"}, "i2": {"p": "x", "n": "vss", "b": "bb"}}
+                elif story in ("refs-from-copies", "refs-from-copy-and-original"):
+                    # port references taken from two copies (or a copy and its original) are references to two ports
+                    if target != "single":
+                        continue
+                    if story == "refs-from-copies":
+                        i1, i2 = _copy.copy(tmpl), _copy.copy(tmpl)
+                    else:
+                        tmpl.p  # (a reference handed out BEFORE the copy was taken)
+                        i1, i2 = tmpl, _copy.copy(tmpl)
+                    l1 = h.Instance(of=X())(n=m.x, b=m.cc, p=i1.p)
+                    l2 = h.Instance(of=X())(n=m.y, b=m.cc, p=i2.p)
+                    i1.name = i2.name = None
+                    m.add(i1, name="i1")
+                    m.add(i2, name="i2")
+                    m.add(l1, name="l1")
+                    m.add(l2, name="l2")
+                    pkg = h.to_proto(m)
+                    net = {(i_.name, c.portname): c.target.sig for i_ in pkg.modules[-1].instances for c in i_.connections}
+                    rec.count("probe.copied-instances-compared")
+                    if not (net[("i1", "p")] == net[("l1", "p")] != net[("i2", "p")] == net[("l2", "p")]):
+                        rec.violation("history-leaves-trace", f"port references taken from {story[10:]} of one instance: l1.p was connected to i1.p and l2.p to i2.p, the package has "
+                                      f"i1.p={net[('i1', 'p')]} l1.p={net[('l1', 'p')]} i2.p={net[('i2', 'p')]} l2.p={net[('l2', 'p')]}", case=case, target="copied-instance",
+                                      replaced_kinds="pref")
+                    continue
                 else:
                     i1 = _copy.copy(_copy.copy(tmpl))
                     i2 = _copy.copy(tmpl)
@@ -535,6 +559,9 @@ def copied_instance_probes(rec):
             except Exception as e:
                 rec.count("ops.refused")
                 rec.count("probe.copied-instances-refused")
+                if story.startswith("refs-from"):  # (nothing ill-formed about these)
+                    rec.violation(f"valid-final-mapping-rejected:{type(e).__name__}", f"port references taken from {story[10:]} of one instance: export raised "
+                                  f"{str(e)[-120:]}", case=case, target="copied-instance")
                 continue
             got = {}
             for inst in pkg.modules[-1].instances:
